@@ -1,6 +1,7 @@
 import Solstat.Wire
 import Solstat.Detectors
 import Solstat.Spec.Basic
+import Solstat.Spec.C05
 import Solstat.Gen.Patterns
 /-!
 # Correspondence-check plumbing (not part of the verified model)
@@ -119,6 +120,36 @@ def dispatchOf (cat variant : String) : Option String :=
   | "vuln" => (vulnDispatch.find? (fun e => e.1.name == variant)).map (·.2)
   | "qa" => (qaDispatch.find? (fun e => e.1.name == variant)).map (·.2)
   | _ => none
+
+/-- specifications with canonical / clearly-non-matching forms, by detector function -/
+def nodeSpecOf : String → Option NodeSpec
+  | "address_balance_optimization" => some specAddressBalance
+  | "address_zero_optimization" => some specAddressZero
+  | "bool_equals_bool_optimization" => some specBoolEqualsBool
+  | "assign_update_array_optimization" => some specAssignUpdateArray
+  | "cache_array_length_optimization" => some specCacheArrayLength
+  | "increment_decrement_optimization" => some specIncrementDecrement
+  | "multiple_require_optimization" => some specMultipleRequire
+  | "optimal_comparison_optimization" => some specOptimalComparison
+  | "shift_math_optimization" => some specShiftMath
+  | "solidity_keccak256_optimization" => some specSolidityKeccak256
+  | "solidity_math_optimization" => some specSolidityMath
+  | _ => none
+
+/-- the property oracle on the implementation's output: every canonical form is reported, and
+every reported location is that of a node which is not a clearly-non-matching form -/
+def nodeSpecOracle (s : NodeSpec) (f : T) (impl : List (Nat × Nat)) : Option String :=
+  let nodes := T.allNodes f
+  let missed := nodes.filter fun n =>
+    s.canon f n && match s.reportLoc n with
+      | some l => !impl.contains (l.start, l.stop)
+      | none => true
+  let spurious := impl.filter fun p =>
+    !(nodes.any fun n => !s.nonMatch f n && (match s.reportLoc n with | some l => (l.start, l.stop) == p | none => false))
+  match missed, spurious with
+  | [], [] => none
+  | m :: _, _ => some s!"canonical form not reported: {nodeHead m}"
+  | [], p :: _ => some s!"reported location {p.1}:{p.2} is not the location of a matching node"
 
 def lookup {α : Type} (m : List (String × α)) (k : String) : Option α := (m.find? (fun e => e.1 == k)).map (·.2)
 
